@@ -49,6 +49,16 @@ def _work(arg):
                                                         "replay": {"module": _MOD.__name__, "prop": prop, "case": case}}], "t": tmo}
         return {"key": case.get("key"), "fails": [], "timeout": True, "t": tmo}
     except Exception as e:
+        tb = traceback.extract_tb(e.__traceback__)
+        in_pkg = [f for f in tb if "/skactiveml/" in f.filename.replace("\\", "/") and "/tests/" not in f.filename]
+        if in_pkg:
+            # an exception thrown by the code under test at a point where the harness expects none (on the validated tree none occurs):
+            # the operation the property talks about failed - a violation with a replayable input, not an error of the harness
+            where = f"{os.path.basename(in_pkg[-1].filename)}:{in_pkg[-1].lineno} in {in_pkg[-1].name}"
+            return {"key": case.get("key"), "t": time.time() - t0,
+                    "fails": [{"sig": f"{case.get('cls', '?')}:{prop}.unexpected_exception[{type(e).__name__}]",
+                               "detail": f"{type(e).__name__}: {str(e)[:160]} raised at {where}",
+                               "replay": {"module": _MOD.__name__, "prop": prop, "case": case}}]}
         return {"key": case.get("key"), "fails": [], "error": f"{type(e).__name__}: {e}", "trace": traceback.format_exc()[-1500:],
                 "t": time.time() - t0}
     finally:
